@@ -47,6 +47,7 @@ type Hist struct {
 	desc      string
 	tw        *Twin
 	twinT     int
+	buildErr  error // set by the provider builder when it fails (the only legitimate generic error RunOnce may return)
 }
 
 type simBuilder struct{ h *Hist }
@@ -70,6 +71,7 @@ func (b simBuilder) Build() (cloudprovider.CloudProvider, error) {
 	}
 	p, err := aws.VerifNewCloudProvider(b.h.aws, b.h.aws.ec2, configs...)
 	if err != nil {
+		b.h.buildErr = err
 		return nil, err
 	}
 	return p, nil
@@ -319,7 +321,17 @@ func (h *Hist) scan(faults map[int]bool, failDesc map[string]bool) (string, erro
 		h.rec.FailDesc[k] = v
 	}
 	h.rec.Conflict = conflict
-	outcome := protect(func() error { return h.ctl.RunOnce() })
+	h.buildErr = nil
+	var runErr error
+	outcome := protect(func() error { runErr = h.ctl.RunOnce(); return runErr })
+	if outcome == "fatal:rebuild-failed" && h.buildErr == nil {
+		// RunOnce returned an error that is neither not-in-group, nor a missing cloud group, nor a failed provider rebuild
+		msg := runErr.Error()
+		if len(msg) > 80 {
+			msg = msg[:80]
+		}
+		outcome = "fatal:unexpected:" + msg
+	}
 	if time.Now().Unix() != sec {
 		// the scan straddled a second boundary (slow scans: fleet waits, rebuild sleeps). That only matters
 		// if it stamped a taint with a later second than the one the model is told about.
